@@ -73,6 +73,13 @@ def check(prog, run):
                 run.report(r, "%s:%s:dropped(%s.%s)" % (f.module.name, f.qualname, ci.name, p), f.where(call),
                            "%s rebuilds a %s from `%s` without passing %s=: the rebuilt element loses it" % (f.qualname, ci.name, src, p))
 
+    # ---- C2 each copied parameter comes from the attribute it is stored in
+    check_copy_sources(prog, run, "C2")
+
+    # ---- V1 sibling call sites of one hook pass the same attribute
+    check_sibling_hook_arguments(prog, run, "V1", ("py_gql.schema.transforms.visibility", "py_gql.schema.transforms.camel_case",
+                                                   "py_gql.schema.schema_visitor", "py_gql.schema.fix_type_references"))
+
     # ---- O1 clone shares what later passes mutate
     r = run.rule("O1", "objects shared between a schema and its clone (members of shallowly copied types: Field, Argument, "
                        "InputField, EnumValue) are never mutated in place by the visitors applied to the clone", 4)
@@ -316,3 +323,100 @@ def check(prog, run):
                 break
     if not n_sites:
         raise AnalysisError("C14.W1: no on_schema writing construction-time state into a registry was found")
+
+
+def param_attributes(ci):
+    """constructor parameter -> raw names of the attributes __init__ (of the class or the first base defining one) stores it
+    in (`self._default_value = default_value`; in `self.python_name = python_name or name` the first parameter is the one
+    stored, the others are fall-backs)."""
+    out = {}
+    for c in ci.mro():
+        init = c.methods.get("__init__") if hasattr(c, "methods") else None
+        if init is None:
+            continue
+        ps = {x.arg for x in init.node.args.args[1:]} | {x.arg for x in init.node.args.kwonlyargs}
+        for n in ast.walk(init.node):
+            if isinstance(n, (ast.Assign, ast.AnnAssign)) and n.value is not None:
+                for t in (n.targets if isinstance(n, ast.Assign) else [n.target]):
+                    if isinstance(t, ast.Attribute) and isinstance(t.value, ast.Name) and t.value.id == "self":
+                        names = [x.id for x in ast.walk(n.value) if isinstance(x, ast.Name) and x.id in ps]
+                        order = sorted(set(names), key=names.index)
+                        if order:
+                            out.setdefault(order[0], set()).add(t.attr)
+        break
+    return out
+
+
+def exposed_attributes(ci, attr):
+    """raw attributes of self that reading `obj.<attr>` looks at: the attribute itself, or what its property getter reads"""
+    m = ci.find_method(attr)
+    if m is None or not any(ast.unparse(d).split(".")[-1] in ("property", "cached_property", "setter", "getter") for d in m.node.decorator_list):
+        return {attr}
+    # (when a setter exists the model keeps the last definition of the name: getter and setter touch the same attributes)
+    return {x.attr for x in ast.walk(m.node) if isinstance(x, ast.Attribute) and isinstance(x.value, ast.Name) and x.value.id == "self"} | {attr}
+
+
+def check_copy_sources(prog, run, rule_id):
+    r = run.rule(rule_id, "every site that rebuilds a schema element from an existing one: a constructor parameter fed directly from an "
+                          "attribute of the source object reads the attribute that parameter is stored in (`python_name=src.python_name`, "
+                          "`default_value=src._default_value`, `args=src.arguments` through the property over `_source_args`), not "
+                          "another one — `python_name=src.name` makes the rebuilt element deliver its value to resolvers under a "
+                          "different key", 12)
+    for f, call, ci, src, supplied, params in rebuild_sites(prog):
+        stored = param_attributes(ci)
+        given = list(zip(params, call.args)) + [(k.arg, k.value) for k in call.keywords if k.arg]
+        for pname, v in given:
+            if not (isinstance(v, ast.Attribute) and isinstance(v.value, ast.Name) and v.value.id == src):
+                continue
+            want = stored.get(pname)
+            if not want:
+                continue
+            got = exposed_attributes(ci, v.attr)
+            r.instance("%s: %s(%s=%s.%s)" % (f.qualname, ci.name, pname, src, v.attr), nontrivial=False)
+            if not (got & want):
+                run.report(r, "%s:%s:copied-from-other-attribute(%s.%s<-%s)" % (f.module.name, f.qualname, ci.name, pname, v.attr), f.where(v),
+                           "%s rebuilds a %s with %s=%s.%s, but that parameter is stored as %s: the rebuilt element carries another "
+                           "attribute's value there" % (f.qualname, ci.name, pname, src, v.attr, "/".join(sorted(want))))
+    r.instance("rebuild sites scanned")
+
+
+def check_sibling_hook_arguments(prog, run, rule_id, modules):
+    r = run.rule(rule_id, "schema transforms: the call sites of one predicate hook of a class (`self.is_field_visible(...)`, ...) agree, "
+                          "position by position, on which attribute of their subject they pass (`.name` everywhere): a site passing "
+                          "`.python_name` where its siblings pass `.name` asks the user's predicate about a different string, so the "
+                          "element is hidden on objects and stays visible on interfaces", 1)
+    n = 0
+    for c in prog.all_classes():
+        if c.module.name not in modules:
+            continue
+        sites = {}
+        for m in c.methods.values():
+            for x in ast.walk(m.node):       # nested helper functions included (`_filter_field` closures)
+                if isinstance(x, ast.Call) and isinstance(x.func, ast.Attribute) and isinstance(x.func.value, ast.Name) and x.func.value.id == "self" \
+                        and c.find_method(x.func.attr) is not None and x.args:
+                    sites.setdefault(x.func.attr, []).append((m, x))
+        for hook, calls in sorted(sites.items()):
+            if len(calls) < 2:
+                continue
+            width = min(len(x.args) for _m, x in calls)
+            for i in range(width):
+                attrs = {}
+                for m, x in calls:
+                    a = x.args[i]
+                    if isinstance(a, ast.Attribute) and isinstance(a.value, ast.Name):
+                        attrs.setdefault(a.attr, []).append((m, x))
+                if not attrs:
+                    continue
+                n += 1
+                r.instance("%s.%s argument %d: %s" % (c.name, hook, i, {k: len(v) for k, v in sorted(attrs.items())}))
+                if len(attrs) > 1:
+                    major = max(attrs, key=lambda k: (len(attrs[k]), k == "name"))
+                    for k, lst in sorted(attrs.items()):
+                        if k == major:
+                            continue
+                        for m, x in lst:
+                            run.report(r, "%s:%s.%s:hook-argument(%s:%d:%s)" % (c.module.name, c.name, m.name, hook, i, k), m.where(x),
+                                       "%s.%s calls self.%s with `.%s` in position %d where the other call sites pass `.%s`: the hook is "
+                                       "asked about a different attribute of the same kind of element" % (c.name, m.name, hook, k, i, major))
+    if not n:
+        raise AnalysisError("C14.%s: no predicate hook with two call sites found" % rule_id)
